@@ -36,6 +36,10 @@ def mk_adapter(a):
         return fm.adapters.Scale(1.0)
     if k == "fixed":
         return fm.adapters.DelayFixed(D(a[1]))
+    if k == "calfixed":
+        # a CALENDAR delay (DelayFixed accepts dateutil relativedelta): outside the integer-time Coq model
+        from dateutil.relativedelta import relativedelta
+        return fm.adapters.DelayFixed(relativedelta(months=a[1]))
     if k == "topull":
         return fm.adapters.DelayToPull(steps=a[1], additional_delay=D(a[2]))
     if k == "topush":
